@@ -101,6 +101,14 @@ def check_reserve(rep, db, f, inst):
                 ok_res = True
             if e.kind == "STORE" and e.a == ("fld", THIS_OBJ, "counter") and e.b == C(1):
                 ok_cnt = True
+            # the table constructed from an initializer list that contains an entry with key 0 (member initialiser `map{ {0, nullptr} }`)
+            if e.kind == "STORE" and isinstance(e.a, tuple) and e.a[:2] == ("fld", THIS_OBJ) and "pointer_map" in fmt(e.a) and isinstance(e.b, tuple) and e.b[:1] == ("tmp",):
+                for e2 in p.events[:i]:
+                    if e2.kind == "CALL" and q.short(e2.a) == "map" and e2.c == ("addr", e.b) and argvals(e2) and isinstance(argvals(e2)[0], tuple) and argvals(e2)[0][:1] == ("tmp",):
+                        il = argvals(e2)[0]
+                        for k_, v_ in p.state.mem.items():
+                            if isinstance(k_, tuple) and k_[:2] == ("idx", il) and isinstance(v_, tuple) and p.state.mem.get(("fld", v_, "first")) == C(0):
+                                ok_res = True
     if ok_res and ok_cnt:
         rep.ok("R-C15-reserve", site(f), "token 0 reserved; cursor starts at 1", inst)
     else:
@@ -116,20 +124,26 @@ def check_fresh(rep, db, f, inst):
     n_first = 0
     for p in ps:
         r = strip_casts(p.retval)
-        if not (isinstance(r, tuple) and r[:1] == ("havoc",)):
-            rep.violation("R-C15-fresh", site(f) + " [fall-through]", "a path returns %s which is not a scanned candidate (fall-through must abort)" % fmt(p.retval), f["loc"], inst)
-            return
         evs = p.events
+        conds = q.resolve(q.conds_before(p, len(evs)))
+        is_end = lambda x: isinstance(x, tuple) and x[:1] == ("ucall",) and q.short(x[2]) in ("end", "cend")
+
+        def absent(c, fr):
+            # `find(token) == end()` in either spelling, as asserted on this path (directly, or left over from the exit condition of a
+            # "skip while in use" loop: `!(i <= max && find(i) != end())` together with `i <= max`)
+            if not (isinstance(c, tuple) and c[:1] == ("cmp",) and len(c) == 4 and c[3] == C(0) and isinstance(c[2], tuple) and c[2][:1] == ("ucall",)):
+                return False
+            nm, args = q.short(c[2][2]), c[2][3]
+            if fr not in args or not any(is_end(x) for x in args):
+                return False
+            return (c[1] == "==" and nm == "operator!=") or (c[1] == "!=" and nm == "operator==")
         # find(...) on pointer_map with argument value == r, and its result compared equal to end()
         fresh = False
         for i, e in enumerate(evs):
             if e.kind == "CALL" and q.short(e.a) == "find" and e.c is not None and "pointer_map" in fmt(e.c) and argvals(e) and strip_casts(argvals(e)[0]) == r:
                 fr = (e.extra or {}).get("ret")
-                for e2 in evs[i:]:
-                    if e2.kind == "ASSUME" and e2.a[0] == "cmp" and e2.a[1] == "!=" and e2.a[3] == C(0):
-                        c = e2.a[2]
-                        if isinstance(c, tuple) and c[:1] == ("ucall",) and q.short(c[2]) == "operator==" and fr in c[3] and any(isinstance(x, tuple) and x[:1] == ("ucall",) and q.short(x[2]) == "end" for x in c[3]):
-                            fresh = True
+                if any(absent(c, fr) for c in conds):
+                    fresh = True
         # equivalent idiom: pointer_map.count(i) == 0 / !pointer_map.contains(i)
         for i, e in enumerate(evs):
             if e.kind == "CALL" and q.short(e.a) in ("count", "contains") and e.c is not None and "pointer_map" in fmt(e.c) and argvals(e) and strip_casts(argvals(e)[0]) == r:
@@ -137,9 +151,11 @@ def check_fresh(rep, db, f, inst):
                 if any(e2.kind == "ASSUME" and e2.a == ("cmp", "==", cr, C(0)) for e2 in evs[i:]):
                     fresh = True
         if not fresh:
+            if not (isinstance(r, tuple) and r[:1] in (("havoc",), ("rd",))):
+                rep.violation("R-C15-fresh", site(f) + " [fall-through]", "a path returns %s which is not a scanned candidate (fall-through must abort)" % fmt(p.retval), f["loc"], inst)
+                return
             rep.violation("R-C15-fresh", site(f), "the returned token is not control-dependent on `pointer_map.find(token) == end()` for the same token (a token in use could be handed out twice)", f["loc"], inst)
             return
-        conds = q.conds_before(p, len(evs))
         ub = q.upper_bounds(conds, r)
         bounded_by_max = any(op == "<=" and strip_casts(u) == maxp for op, u in ub)
         bounded_by_cursor = any(op == "<" and u == ("rd", ("fld", THIS_OBJ, "counter")) for op, u in ub)
